@@ -81,6 +81,9 @@ func NewCounters() *Counters {
 var Ctr = NewCounters()
 
 func (c *Counters) add(o *Out) {
+	if Shrinking {
+		return
+	}
 	c.Runs++
 	c.Steps += o.Steps
 	c.Outcomes[o.Outcome]++
@@ -142,7 +145,7 @@ func Run(spec *Spec) *Out {
 				fs.Plan[k] = v
 			}
 			var st *simrt.Stream
-			if spec.Sched.Tape != nil {
+			if spec.Sched.Tape != nil || spec.Sched.Seed == 0 {
 				st = simrt.ReplayStream(spec.Sched.Tape)
 			} else {
 				st = simrt.NewStream(spec.Sched.Seed)
